@@ -34,6 +34,10 @@ const LOG_MMAP_SLAB_BYTES: usize =
 /// Number of bytes per slab.
 const MMAP_SLAB_BYTES: usize = 1 << LOG_MMAP_SLAB_BYTES;
 
+/// Verification hook: the slab size, so that a harness can place test ranges across slab boundaries.
+#[cfg(mmtk_verif)]
+pub const VERIF_LOG_MMAP_SLAB_BYTES: usize = LOG_MMAP_SLAB_BYTES;
+
 /// Log number of chunks per slab.
 const LOG_MMAP_CHUNKS_PER_SLAB: usize = LOG_MMAP_SLAB_BYTES - LOG_BYTES_IN_CHUNK;
 /// Number of chunks per slab.
